@@ -66,6 +66,8 @@ type Proxy struct {
 	// AfterReply, when non-nil, is called after the reply was obtained from the backend and before it
 	// is written back.
 	AfterReply func(req, reply []byte)
+	// Rewrite, when non-nil, may replace the backend's reply (e.g. to echo a caller-specific tag).
+	Rewrite func(req, reply []byte) []byte
 }
 
 // NewProxy starts the proxy goroutines over an in-memory pipe; hand p.Client to the code under test.
@@ -181,6 +183,9 @@ func (p *Proxy) loop() {
 		}
 		if p.AfterReply != nil {
 			p.AfterReply(req, reply)
+		}
+		if p.Rewrite != nil {
+			reply = p.Rewrite(req, reply)
 		}
 		p.mu.Lock()
 		p.frames = append(p.frames, Frame{Req: req, Reply: reply})
